@@ -236,6 +236,48 @@ fn huge_n_boxed(st: &mut Stats) {
     }
 }
 
+/// the top of the length range: N = usize::MAX exists for zero-sized elements.  Every source
+/// that can be produced is too short, so the answer is always LengthError / the length panic
+/// (arithmetic like N + 1 must not get in the way), after at most c + 1 polls.
+fn max_n_zst(st: &mut Stats) {
+    type Max = generic_array::typenum::Sum<generic_array::typenum::U9223372036854775808, generic_array::typenum::U9223372036854775807>;
+    let n = <Max as generic_array::typenum::Unsigned>::USIZE;
+    assert_eq!(n, usize::MAX);
+    for (c, hint) in [(0usize, Hint::Unknown), (3, Hint::Unknown), (3, Hint::Exact), (5, Hint::LowerLow), (2, Hint::Fixed(0, Some(usize::MAX))), (4, Hint::Fixed(usize::MAX, None))] {
+        for form in [Form::TryStack, Form::TryBoxed, Form::FromIterStack, Form::FromIterBoxed] {
+            st.check_case("C07", form.name(), "()", || format!("C07 {} () N=usize::MAX c={c} hint={}", form.name(), hint.name()), true, || {
+                let (src, log) = ScriptIter::<()>::new(c, hint, true, None);
+                let r = vkit::catch(move || match form {
+                    Form::TryStack => GA::<(), Max>::try_from_iter(src).is_ok(),
+                    Form::TryBoxed => GA::<(), Max>::try_boxed_from_iter(src).is_ok(),
+                    Form::FromIterStack => {
+                        let a: GA<(), Max> = src.collect();
+                        a.len() == usize::MAX
+                    }
+                    Form::FromIterBoxed => {
+                        let a: Box<GA<(), Max>> = src.collect();
+                        a.len() == usize::MAX
+                    }
+                });
+                let log = log.borrow().clone();
+                if log.polls > c + 1 {
+                    return Err(format!("TooManyPolls: {} polls of a {c}-item source", log.polls));
+                }
+                let fallible = matches!(form, Form::TryStack | Form::TryBoxed);
+                match r {
+                    Caught::Returned(true) => Err("WrongOk: an array of usize::MAX elements from a handful of items".into()),
+                    Caught::Returned(false) if fallible => Ok(()),
+                    Caught::Returned(false) => Err("WrongOk: collect returned".into()),
+                    Caught::Other(m) if !fallible && m.contains(&format!("expected {n} items")) => Ok(()),
+                    Caught::Other(m) if fallible => Err(format!("Panic: fallible form panicked: {m}")),
+                    Caught::Other(m) => Err(format!("WrongMessage: collect panicked with {m:?}, expected the 'expected {n} items' message")),
+                    Caught::Injected(..) => Err("HarnessBug: injected".into()),
+                }
+            });
+        }
+    }
+}
+
 macro_rules! lens {
     ($st:expr, $args:expr, $E:ty, [$($v:literal),*]) => { $( if $v <= $args.maxn { grid::<$E, U<$v>>($st, &$args); } )* };
 }
@@ -260,6 +302,7 @@ fn main() {
     }
     if args.part_on("large") && args.maxn >= 200 && args.flavour_on("u32") && !cfg!(miri) {
         huge_n_boxed(&mut st);
+        max_n_zst(&mut st);
     }
     if args.part_on("large") && args.maxn >= 200 {
         // > 1 KiB by many small elements and by a few fat ones
